@@ -347,7 +347,16 @@ static void stratum_closure(vf_rng *r) {
             for (int i = 0; i < 122; i++) vf_out_cell("getRes0Cells", r0[i], 0);
         int n = vf_special_seeds(res, VF_T(2, 6), seeds, 400);
         for (int i = 0; i < n; i++)
-            if (VF_MINE(idx++)) closure_cell(seeds[i], r);
+            if (VF_MINE(idx++)) {
+                closure_cell(seeds[i], r);
+                if (i < 12) {
+                    /* the cells around each pentagon as origins too (their own disks, edges, paths start beside the pentagon) */
+                    H3Index dk[19] = {0};
+                    if (!gridDisk(seeds[i], VF_T(1, 2), dk))
+                        for (int j = 0; j < 19; j++)
+                            if (dk[j] && dk[j] != seeds[i]) closure_cell(dk[j], r);
+                }
+            }
         int nr = VF_T(30, 400);
         for (int i = 0; i < nr; i++) closure_cell(vf_rand_cell(r, res), r);
     }
